@@ -87,16 +87,21 @@ type State struct {
 	ghost     map[string]Val
 	done      bool
 	trace     []string
+	fresh     map[*Term]bool
 }
 
 type lockHeld struct {
 	snap *Snapshot
 	spec *Contract
 	obj  Val
+	ls   *lockSpec
 }
 
 func (st *State) clone() *State {
-	n := &State{cells: make(map[*Cell]Val, len(st.cells)), heap: make(map[string]*Term, len(st.heap)), heapEpoch: st.heapEpoch, na: st.na, locks: map[string]*lockHeld{}, ghost: map[string]Val{}}
+	n := &State{cells: make(map[*Cell]Val, len(st.cells)), heap: make(map[string]*Term, len(st.heap)), heapEpoch: st.heapEpoch, na: st.na, locks: map[string]*lockHeld{}, ghost: map[string]Val{}, fresh: map[*Term]bool{}}
+	for k := range st.fresh {
+		n.fresh[k] = true
+	}
 	for k, v := range st.cells {
 		n.cells[k] = v
 	}
@@ -198,6 +203,9 @@ type Exec struct {
 	plan        *inputPlan
 	concTypes   map[string]types.Type
 	ifaceTypes  map[string]*types.Interface
+	lspecs      []*lockSpec
+	curIns      ssa.Instruction
+	wildRegions map[string]bool
 }
 
 type dryRun struct {
@@ -212,7 +220,7 @@ type dryRun struct {
 }
 
 func NewExec(prog *Program, fn *ssa.Function, c *Contract) *Exec {
-	ex := &Exec{prog: prog, ts: NewTermStore(), root: fn, contract: c, obls: map[string]*Obligation{}, regionSorts: map[string]*Sort{}, arrFieldIdx: map[string]int{}, immutableGlobals: prog.Immutable, maxPaths: 20000, assumptions: map[string]bool{}, typeTags: map[string]int64{}, axiomSeen: map[int]bool{}, loopInfo: map[*ssa.Function]*loopAnalysis{}, siteSeq: map[string]int{}, sharedCells: map[*Cell]bool{}, concTypes: map[string]types.Type{}, ifaceTypes: map[string]*types.Interface{}}
+	ex := &Exec{prog: prog, ts: NewTermStore(), root: fn, contract: c, obls: map[string]*Obligation{}, regionSorts: map[string]*Sort{}, arrFieldIdx: map[string]int{}, immutableGlobals: prog.Immutable, maxPaths: 20000, assumptions: map[string]bool{}, typeTags: map[string]int64{}, axiomSeen: map[int]bool{}, loopInfo: map[*ssa.Function]*loopAnalysis{}, siteSeq: map[string]int{}, sharedCells: map[*Cell]bool{}, concTypes: map[string]types.Type{}, ifaceTypes: map[string]*types.Interface{}, wildRegions: map[string]bool{}}
 	ex.bv = c != nil && c.Mode == "bv"
 	if c != nil {
 		if ab, ok := c.Options["allocbound"]; ok {
@@ -373,7 +381,7 @@ func (ex *Exec) Run() (err error) {
 		}
 	}()
 	ts := ex.ts
-	st := &State{cells: map[*Cell]Val{}, heap: map[string]*Term{}, locks: map[string]*lockHeld{}, ghost: map[string]Val{}}
+	st := &State{cells: map[*Cell]Val{}, heap: map[string]*Term{}, locks: map[string]*lockHeld{}, ghost: map[string]Val{}, fresh: map[*Term]bool{}}
 	st.na = ts.Const("na0", SInt)
 	ex.st = st
 	ex.assume(ts.Le(ts.Int(0), st.na, true))
@@ -446,6 +454,9 @@ func (ex *Exec) Run() (err error) {
 		st.na = savedNa
 		fr.old = st.snapshot()
 	}
+	if len(ex.lockSpecs()) > 0 {
+		ex.guardCheck = ex.guardedAccess
+	}
 	ex.work = []*State{st}
 	for len(ex.work) > 0 {
 		s := ex.work[len(ex.work)-1]
@@ -468,6 +479,7 @@ func (ex *Exec) runPath() {
 		}
 		ins := fr.block.Instrs[fr.ip]
 		fr.ip++
+		ex.curIns = ins
 		ex.step(fr, ins)
 	}
 }
@@ -880,7 +892,7 @@ func (ex *Exec) jump(fr *Frame, to *ssa.BasicBlock) {
 	// leaving a cut loop: exit assertions of that loop
 	if ex.dry == nil {
 		for _, li := range la.heads {
-			if li.body[from.Index] && !li.body[to.Index] && fr.cut[li.head.Index] {
+			if from == li.head && !li.body[to.Index] && fr.cut[li.head.Index] {
 				if spec := ex.loopSpecFor(fr, li); spec != nil {
 					for i, a := range spec.After {
 						lname := fmt.Sprintf("%s.loop%d", relName(fr.fn), li.ordinal)
